@@ -142,7 +142,8 @@ def roundtrip_check(built, names):
     fo.getObjectPath = lambda: opath
     exports = {opath: fo}
     if opath != '/obj':
-        exports['/a/b/c' if opath == '/a/b' else '/other'] = FakeObject([])
+        # ... the other object has an interface of its own: a child (or a neighbour) is NAMED in the parent's document, not described there
+        exports['/a/b/c' if opath == '/a/b' else '/other'] = FakeObject([interface.DBusInterface('org.verif.OtherObjectOnly', interface.Method('OnlyThere'), noRegister=True)])
     xml = introspection.generateIntrospectionXML(opath, exports)
     if xml is None:
         return 'no XML generated for an exported object'
@@ -150,6 +151,8 @@ def roundtrip_check(built, names):
         parsed = {i.name: i for i in introspection.getInterfacesFromXML(xml, True)}
     except Exception as e:
         return 'parsing the generated XML raised %s: %s\n%s' % (type(e).__name__, e, xml)
+    if 'org.verif.OtherObjectOnly' in parsed:
+        return 'the document of the object at %s describes an interface that only ANOTHER exported object (%s) has' % (opath, [k for k in exports if k != opath])
     for (iface, decl), name in zip(built, names):
         what = 'interface %s declared %r' % (name, decl)
         p = parsed.get(name)
@@ -287,6 +290,26 @@ def reuse_case():
     return None
 
 
+def own_standard_interface_case():
+    """an object that declares one of the standard interfaces ITSELF (a full ObjectManager with its signals): parsed back - by a process
+    that does not know the interface yet - it has the declared members, not those of the library's minimal block"""
+    from txdbus import interface, introspection
+    name = 'org.freedesktop.DBus.ObjectManager'
+    own = interface.DBusInterface(name, interface.Method('GetManagedObjects', returns='a{oa{sa{sv}}}'), interface.Signal('InterfacesAdded', 'oa{sa{sv}}'),
+                                  interface.Signal('InterfacesRemoved', 'oas'), noRegister=True)
+    saved = interface.DBusInterface.knownInterfaces.pop(name, None)
+    try:
+        xml = introspection.generateIntrospectionXML('/obj', {'/obj': FakeObject([own])})
+        got = [i for i in introspection.getInterfacesFromXML(xml, False) if i.name == name]
+        if not got or any(sorted(g.signals) != ['InterfacesAdded', 'InterfacesRemoved'] for g in got):
+            return 'an object declaring %s itself (with InterfacesAdded / InterfacesRemoved) is parsed back with the signals %r' % (name, [sorted(g.signals) for g in got])
+    finally:
+        interface.DBusInterface.knownInterfaces.pop(name, None)
+        if saved is not None:
+            interface.DBusInterface.knownInterfaces[name] = saved
+    return None
+
+
 def failed_parse_case():
     """a document that fails to parse (cut short at every element boundary) leaves nothing behind: the complete document parsed
     afterwards - without asking for replacement - yields the declared definition, and a definition known before is still the known one"""
@@ -385,6 +408,10 @@ def bounded(tier, seed):
     f = failed_parse_case()
     if f:
         return n, f, {'case': 'failed parse'}
+    n += 1
+    f = own_standard_interface_case()
+    if f:
+        return n, f, {'case': 'own standard interface'}
     n += 1
     f = class_hierarchy_case()
     if f:
